@@ -274,6 +274,12 @@ void drv_apply(const char* op)
     j_strbytes("p", p); j_strbytes("simp", simp); j_strbytes("simp2", simp2);
     j_strbytes("dir", File::getDirectoryName(p)); j_strbytes("base", File::getBaseName(p));
     j_strbytes("stem", File::getStem(p)); j_strbytes("ext", File::getExtension(p));
+    // the two-argument forms: base name / stem with a given extension (with and without the dot) removed
+    {
+      String ext = File::getExtension(p), dext = String(".") + ext, other("zq");
+      j_strbytes("be", File::getBaseName(p, ext)); j_strbytes("bde", File::getBaseName(p, dext));
+      j_strbytes("se", File::getStem(p, ext)); j_strbytes("bz", File::getBaseName(p, other));
+    }
     j_bool("abs", File::isAbsolutePath(p));
     j_end();
     return;
@@ -291,9 +297,10 @@ void drv_apply(const char* op)
   char p[64] = "-", q[64] = "-";
   long k = 0, off = 0; int dn = 0; unsigned char* d = 0; int dIsOff = 0;
   long long r = 0; String rd; int nop = 0;
-  int handleOp = !strcmp(op, "write") || !strcmp(op, "seek") || !strcmp(op, "readall") || !strcmp(op, "close");
+  int handleOp = !strcmp(op, "write") || !strcmp(op, "seek") || !strcmp(op, "readall") || !strcmp(op, "close") || !strcmp(op, "read") || !strcmp(op, "size");
   if(!strcmp(op, "write")) d = tok_bytes(&dn, 0);
   else if(!strcmp(op, "seek")) { off = tok_int(); k = tok_int(); dIsOff = 1; }
+  else if(!strcmp(op, "read")) { k = tok_int(); if(k < 0 || k > 4096) nop = 1; }
   else if(!handleOp)
   {
     strncpy(p, tok_next(), 63);
@@ -320,6 +327,15 @@ void drv_apply(const char* op)
   else if(!strcmp(op, "write")) r = (long long)g_file->write(d, (usize)dn);
   else if(!strcmp(op, "seek")) r = (long long)g_file->seek(off, k == 0 ? File::setPosition : k == 1 ? File::currentPosition : File::endPosition);
   else if(!strcmp(op, "readall")) { r = g_file->readAll(rd) ? 1 : 0; }
+  else if(!strcmp(op, "read"))
+  {
+    // exact-size heap buffer: a read that stores more than it was asked for is an ASan report
+    char* buf = (char*)malloc((size_t)k + 1);
+    r = (long long)g_file->read(buf, (usize)k);
+    if(r > 0) rd = String(buf, (usize)r);
+    free(buf);
+  }
+  else if(!strcmp(op, "size")) r = (long long)g_file->size();
   else if(!strcmp(op, "close")) { g_file->close(); r = 1; }
   else if(!strcmp(op, "put"))
   {
